@@ -48,6 +48,11 @@ func fmtDirectives(r *rng, e int, length int) []string {
 	// … also with a width, a precision and the '-' flag: the text inside the parentheses is String()
 	out = append(out, "%"+r.pickS([]string{"", "-"})+r.pickS([]string{"", "3", "24"})+r.pickS([]string{"", ".0", ".3", ".20"})+r.pickS([]string{"d", "s", "q", "x", "h"}))
 	out = append(out, "%"+r.pickS([]string{"+", "#", "0", "+0"})+r.pickS([]string{"f", "e", "g"}))
+	// every other ASCII letter is an unsupported verb — in particular the case-swapped twins of
+	// supported ones (V) — except T, p, w, which fmt handles without calling Format
+	const others = "abcdhijklmnoqrstuxyzABCDHIJKLMNOQRSUVWXYZ"
+	out = append(out, "%"+string(others[r.intn(len(others))]))
+	out = append(out, "%"+r.pickS([]string{"", "-"})+r.pickS([]string{"", "12"})+r.pickS([]string{"", ".4"})+r.pickS([]string{"V", "V", "D", "S", "X", "Q"}))
 	return out
 }
 
@@ -510,9 +515,35 @@ func genC13(e *emitter, r *rng, tier string) {
 		e.count("C13.generator")
 	}
 	// NewNumberFromBigRat: all versions, all magnitudes, terminating or not
-	for i := 0; i < n/4; i++ {
+	// machine-word boundaries, always present: denominators of every bit length 55..66 — random,
+	// just below 2^bits, just above 2^(bits-1) — with the numerator just below, far below and above
+	// the denominator (a word-sized fast path of the long division overflows here or nowhere)
+	type nd struct{ num, den *big.Int }
+	var fixed []nd
+	for bits := 55; bits <= 66; bits++ {
+		rnd := new(big.Int).Lsh(big.NewInt(1), uint(bits-1))
+		rnd.Add(rnd, new(big.Int).Rsh(new(big.Int).SetUint64(r.next()), uint(max(65-bits, 0))))
+		rnd.SetBit(rnd, bits-1, 1)
+		rnd.SetBit(rnd, 0, 1)
+		top := new(big.Int).Sub(new(big.Int).Lsh(big.NewInt(1), uint(bits)), big.NewInt(int64(1+2*r.intn(500))))
+		bot := new(big.Int).Add(new(big.Int).Lsh(big.NewInt(1), uint(bits-1)), big.NewInt(int64(1+2*r.intn(500))))
+		for _, d := range []*big.Int{rnd, top, bot} {
+			fixed = append(fixed, nd{new(big.Int).Sub(d, big.NewInt(int64(1+r.intn(9)))), d})
+			fixed = append(fixed, nd{big.NewInt(int64(1 + r.intn(50))), d})
+			if tier == "thorough" {
+				fixed = append(fixed, nd{new(big.Int).Rsh(new(big.Int).Mul(d, big.NewInt(int64(9+r.intn(30)))), 3), d})
+			}
+		}
+	}
+	for i := 0; i < n/4+len(fixed); i++ {
 		var num, den *big.Int
-		switch r.intn(6) {
+		sel := r.intn(6)
+		if i < len(fixed) {
+			sel = 99
+			num, den = fixed[i].num, fixed[i].den
+		}
+		switch sel {
+		case 99:
 		case 5:
 			// machine-word boundaries: denominators of 55..65 bits, numerator just below / far below
 			bits := 55 + r.intn(11)
